@@ -70,8 +70,9 @@
 //! (not re-verified from here).
 //!
 //! Until the repairs are committed the class NestedLoop × MemRefuse{disk} is excluded through
-//! `known_signature` (counter `known_excluded`): multi-partition cases under `nlj-oom-fallback:left-child-reexecuted`,
-//! single-partition ones under `nlj-oom-fallback:right-emission-skipped` (duplicate of C05's finding).
+//! `known_signature`. Final tree: (A) and (C) are fixed in /repo; only (B) is open, so only the multi-partition
+//! cases of the class stay excluded, under `nlj-oom-fallback:left-emission-multi-partition` (regression case
+//! /verif/regressions/C20/c20/nlj-fallback-multi-partition-left-emission.json; `known_signature` maps OPEN findings only).
 //!
 //! **Sensitivity probes** (patches in `crates/vf-res/probes/`, run with `tools/mutrun <patch> -- ./check C20
 //! quick`; all on VERIF_SEED=0):
@@ -594,7 +595,8 @@ impl Property for C20 {
         let nlj = case.query.shape.join_algo() == Some(JoinAlgo::NestedLoop);
         if nlj && matches!(case.fault, FaultKind::MemRefuse { disk: true, .. }) {
             let multi = case.cfg.target_partitions >= 2 || case.cfg.parts_t >= 2 || case.cfg.parts_u >= 2;
-            return Some(if multi { SIG_LEFT_CHILD } else { SIG_RIGHT_EMISSION }.to_string());
+            // only the still-open defect (B) is mapped; (A) and (C) are fixed in /repo and their cases run again
+            return if multi { Some(SIG_LEFT_EMISSION.to_string()) } else { None };
         }
         None
     }
@@ -603,8 +605,6 @@ impl Property for C20 {
     }
 }
 
-pub const SIG_LEFT_CHILD: &str = "nlj-oom-fallback:left-child-reexecuted";
 pub const SIG_LEFT_EMISSION: &str = "nlj-oom-fallback:left-emission-multi-partition";
-pub const SIG_RIGHT_EMISSION: &str = "nlj-oom-fallback:right-emission-skipped";
 static FAULT_POINTS: std::sync::atomic::AtomicU64 = std::sync::atomic::AtomicU64::new(0);
 static REACHED_POINTS: std::sync::atomic::AtomicU64 = std::sync::atomic::AtomicU64::new(0);
